@@ -266,6 +266,7 @@ func Inline(mods []*Mod) ([]*Mod, []AugNote, error) {
 			for _, ak := range a.Kids {
 				c := Clone(ak)
 				inherit(c, a.When, a.IfFeatures, a.Status)
+				markDefMod([]*Node{c}, m.Name)
 				t.Kids = append(t.Kids, c)
 				if tm != m && !(m.BelongsTo != "" && tm.Name == m.BelongsTo) {
 					in.notes = append(in.notes, AugNote{Path: "/" + strings.Join(names, "/") + "/" + c.Name, Module: m.Name})
